@@ -5,6 +5,7 @@ import (
 	"encoding/json"
 	"fmt"
 	"go/types"
+	"os"
 	"reflect"
 	"sort"
 	"strings"
@@ -461,7 +462,7 @@ func (e *Exec) encode(v Value, t types.Type) JVal {
 			if x.S.W != 64 {
 				e.unsupported("float32 encoding")
 			}
-			return JNum{F: x}
+			return JNum{F: x, I: e.i2f[x]} // integer view: known when the float came from an integer token
 		}
 	case *types.Pointer:
 		p := v.(Ptr)
@@ -1174,6 +1175,9 @@ func (d *jdec) decode(jv JVal, p Ptr, t types.Type, addressable bool) {
 			}
 			if n.I == nil {
 				// the literal's integer view is unknown: it may or may not be an integer in range
+				if os.Getenv("GOSYM_DBGNUM") != "" && n.F != nil {
+					e.notes = append(e.notes, fmt.Sprintf("F-only num decoded into int: op=%s name=%s t=%s stack=%v", n.F.Op, n.F.Name, t.String(), e.stackNames(6)))
+				}
 				ok := e.NewInput("json.num.isint", sym.Bool)
 				if !e.Branch(ok) {
 					mismatch()
@@ -1253,8 +1257,37 @@ func (d *jdec) floatView(n JNum) *T {
 	if n.I != nil && n.I.IsConst() {
 		return sym.BVC(64, mathFloat64bits(float64(int64(n.I.Val))))
 	}
-	// float view of an integer-only token: unconstrained (over-approximation, see DESIGN M-json)
-	return d.e.NewInput("json.num.float", sym.BV(64))
+	// float view of a symbolic integer token: exact conversion for |i| <= 2^53 (larger magnitudes are
+	// outside the bound: the path is cut by an assumption, recorded under "bounds")
+	e := d.e
+	lim := int64(1) << 53
+	e.Assume(sym.And(sym.SLe(sym.BVC(64, uint64(-lim)), n.I), sym.SLe(n.I, sym.BVC(64, uint64(lim)))))
+	f := i2f53(n.I)
+	if e.i2f == nil {
+		e.i2f = map[*T]*T{}
+	}
+	e.i2f[f] = n.I
+	return f
+}
+
+// i2f53: IEEE-754 binary64 bits of the signed integer x, exact for |x| <= 2^53 (bit-vector circuit).
+func i2f53(x *T) *T {
+	zero := sym.BVC(64, 0)
+	neg := sym.SLt(x, zero)
+	a := sym.Ite(neg, sym.Neg(x), x)
+	mask := sym.BVC(64, (uint64(1)<<52)-1)
+	res := zero
+	for k := 0; k <= 53; k++ {
+		cond := sym.And(sym.ULe(sym.BVC(64, uint64(1)<<uint(k)), a), sym.ULt(a, sym.BVC(64, uint64(1)<<uint(k+1))))
+		var mant *T
+		if k <= 52 {
+			mant = sym.BAnd(sym.Shl(a, sym.BVC(64, uint64(52-k))), mask)
+		} else {
+			mant = sym.BAnd(sym.LShr(a, sym.BVC(64, 1)), mask)
+		}
+		res = sym.Ite(cond, sym.BOr(sym.BVC(64, uint64(1023+k)<<52), mant), res)
+	}
+	return sym.BOr(res, sym.Ite(neg, sym.BVC(64, uint64(1)<<63), zero))
 }
 
 func (d *jdec) lookupConc(m *Map, k Str) (Value, bool) {
